@@ -46,32 +46,45 @@ class SpecFP(object):
 
 def sim_model(log, M, o, n, m):
     """Attach float-model facts defining simval_M(o, n, m) for o >= 1 (so neither set is
-    empty); returns the term simval_M(o, n, m).
+    empty); returns (simval_M(o, n, m), terms) where terms names the intermediate values.
 
     py_stringmatching: 1.0 if the two sets are equal (o == n == m), else
       JACCARD  float(o) / float(n + m - o)
       COSINE   float(o) / (sqrt(float(n)) * sqrt(float(m)))
       DICE     2.0 * float(o) / float(n + m)
       OVERLAP_COEFFICIENT  float(o) / min(n, m)
+    Token counts are at most 2^31, so every conversion is exact and no intermediate result
+    is subnormal (assume_normal).
     """
     f = SpecFP(log)
-    rel0 = log.rel
-    log.rel = True
+    log.assume_normal = True
     ro, rn, rm = z3.ToReal(o), z3.ToReal(n), z3.ToReal(m)
+    tm = {}
     if M == 'JACCARD':
         v = f.div(ro, z3.ToReal(n + m - o))
+        tm['qs'] = log.ops[-1].e
     elif M == 'COSINE':
-        v = f.div(ro, f.mul(f.sqrt(rn), f.sqrt(rm)))
+        sa = f.sqrt(rn)
+        tm['Sa'], tm['sa'] = log.ops[-1].e, sa
+        sb = f.sqrt(rm)
+        tm['Sb'], tm['sb'] = log.ops[-1].e, sb
+        d = f.mul(sa, sb)
+        tm['d'] = d
+        v = f.div(ro, d)
+        tm['qs'] = log.ops[-1].e
     elif M == 'DICE':
         v = f.div(2 * ro, z3.ToReal(n + m))        # 2.0 * float(o) is exact
+        tm['qs'] = log.ops[-1].e
     elif M == 'OVERLAP_COEFFICIENT':
         v = f.div(ro, z3.ToReal(z3.If(n <= m, n, m)))
+        tm['qs'] = log.ops[-1].e
     else:
         raise ValueError(M)
-    log.rel = rel0
+    log.assume_normal = False
+    tm['v'] = v
     s = simval[M](o, n, m)
     log.facts.append(s == z3.If(z3.And(o == n, o == m), z3.RealVal(1), v))
-    return s, v
+    return s, tm
 
 
 def round4_model(log, x):
@@ -84,6 +97,6 @@ def round4_model(log, x):
 def required_sizes(log, M, o, n, m, t):
     """C01's `satisfies` on sizes, for comp_op '>=' (the other operators imply it):
     both sets non-empty with overlap o, raw and 4-decimal-rounded similarity >= t."""
-    s, v = sim_model(log, M, o, n, m)
+    s, tm = sim_model(log, M, o, n, m)
     s4 = round4_model(log, s)
-    return z3.And(o >= 1, o <= n, o <= m, n <= MAXTOK, m <= MAXTOK, s >= t, s4 >= t), s, v
+    return z3.And(o >= 1, o <= n, o <= m, n <= MAXTOK, m <= MAXTOK, s >= t, s4 >= t), s, tm
